@@ -4605,6 +4605,8 @@ class ParseCtx:
         elif type_obj.data in ("str_type", "unterm_str_type"):
             storage = OutputStorage(OutputStorageType.STR, name, default_value=default_value, str_size=self._convert_int(type_obj.children[0].value),
                                     str_null=type_obj.data == "str_type")
+            if storage.str_size < 1:
+                raise IllegalParseTree("A string output needs a size of at least 1", type_obj.children[0])
             if default_value is not None and len(default_value) > storage.effective_string_size():
                 raise IllegalParseTree("Default value is too long for output", decl.children[2])
             return storage
